@@ -23,7 +23,7 @@
    on the implementation by the differential fuzz (suites cand, attrs). *)
 From Coq Require Import ZArith NArith Bool String List.
 From Ice Require Import Model.Wrap Model.PrioSpec Model.Crc32 Model.Foundation Model.CandVariant Model.Cand Model.Attrs
-     Proofs.CandStrings Proofs.CandEqProofs Proofs.CandProofs Proofs.CandMonitor Proofs.CandCrc Proofs.AttrsProofs.
+     Proofs.CandStrings Proofs.CandEqProofs Proofs.CandProofs Proofs.CandMonitor Proofs.CandCrc Proofs.AttrsProofs Proofs.NomCollide.
 Import ListNotations.
 Local Open Scope Z_scope.
 
@@ -116,6 +116,13 @@ Theorem C16_attr_nomination_low_24_bits : forall m t v,
   contains m t = false -> 0 <= v -> nomination_get t (nomination_add t v m) = AOk (v mod 16777216).
 Proof. exact nomination_roundtrip. Qed.
 Print Assumptions C16_attr_nomination_low_24_bits.
+
+(* hence two values 2^24 apart are one and the same attribute on the wire *)
+Theorem C16_attr_nomination_wire_collision : forall m t v,
+  contains m t = false -> 0 <= v ->
+  nomination_get t (nomination_add t (v + 16777216) m) = nomination_get t (nomination_add t v m).
+Proof. exact nomination_wire_collision. Qed.
+Print Assumptions C16_attr_nomination_wire_collision.
 
 (* ---- sizes: a present attribute of a wrong size is rejected.  _partial: in the pinned code a
         nomination attribute longer than 4 bytes is accepted. *)
